@@ -14,3 +14,4 @@ import TemporalModel.Props.C14
 import TemporalModel.Props.C15
 import TemporalModel.Props.C17
 import TemporalModel.Props.C18
+import TemporalModel.Props.C19
